@@ -285,6 +285,11 @@ def store(
 
     arrays = []
     for s, t, r in zip(sources, targets, regions_list):
+        # The per-block target slices below are literals derived from the
+        # advertised chunks; pin that layout so a rewrite that changes the
+        # source's block grid (e.g. sliding-window reductions) cannot
+        # desynchronize blocks and slices.
+        s = s.freeze_chunks()
         slices = ArraySliceDep(s.chunks)
         arrays.append(
             map_blocks(
